@@ -309,7 +309,9 @@ JOIN_STEPS = fn("join_steps", "r", attrs="#[verifier::loop_isolation(false)]\n#[
                 ensures=["r@ == join_steps_spec(self.config.is_try, self.transpose, !(step_number < self.max_step_count - 1), self.branch_count as int, "
                          "self.depths@, step_number as int, step_stream@, next_step_stream, "
                          "let_tuple(seq_toks_sep(filter_active(result_pats@, self.depths@, step_number as int, result_pats@.len() as int), ','), step_results_name.toks()), "
-                         "result_vars@, step_results_name.toks(), seq![Tok::Ident(construct_internal_value_name_spec())])"],
+                         "result_vars@, step_results_name.toks(), seq![Tok::Ident(construct_internal_value_name_spec())], "
+                         # internal temporaries are taken from the source (R9 quote_idents), so renaming them consistently changes nothing
+                         "qj_JoinOutput_join_steps()[2], qj_JoinOutput_join_steps()[0])"],
                 proof_prologue="proof { lemma_take_full(self.depths@); }",
                 subst=[{"find": "<TPat: ToTokens + Clone, TVar: ToTokens + Clone, TName: ToTokens>", "replace": "",
                         "why": "monomorphised at the only instantiation (ToTokens for JoinOutput passes Vec<TokenStream>, Vec<Ident>, Ident)", "sig": True},
@@ -613,6 +615,7 @@ def steps_units():
             un2 = dict(un)
             un2["fns"] = [f for f in un["fns"] if f["name"] in keep_fns]
             u += _assume([un2])
+    u.append(table("quote_idents", F_JO, "qj+@Err"))
     u.append(raw("specs_join_steps", _read("specs_join_steps.rs")))
     u.append(fns(F_JO, [JOIN_STEPS, THREAD_BUILDERS], self_ty="JoinOutput"))
     # C09 / C16: the tail of generate_step (R15, statements from `let joiner =` to the end): which joiner, over which streams
